@@ -311,6 +311,7 @@ func (s *Ser) atom(q query.Q) int {
 			m["re"] = M{"op": "nil", "sub": []M{}}
 		}
 	}
+	m = slim(m, t)
 	id := len(s.atoms) + 1
 	b := 0
 	if base != "" {
@@ -325,6 +326,57 @@ func (s *Ser) atom(q query.Q) int {
 	s.ids[key] = id
 	return id
 }
+
+// slim keeps the fields the specification reads for an atom of kind t (the trace is large).
+func slim(m M, t string) M {
+	keep := map[string][]string{
+		"substr": {"pat", "fn", "ct", "cs"}, "regex": {"pat", "fn", "ct", "cs", "re"}, "branch": {"pat", "b"},
+		"repo": {"pat", "re"}, "reporegexp": {"pat", "re"}, "reposet": {"names"}, "filenameset": {"names"}, "repoids": {"ids"},
+		"branchesrepos": {"br"}, "lang": {"s"}, "meta": {"s", "pat", "re"}, "rawconfig": {"flags"}, "symbol": {"s"}, "unknown": {"s"},
+	}[t]
+	res := M{"t": t}
+	for _, k := range keep {
+		res[k] = m[k]
+	}
+	if t == "regex" {
+		// only the top-level operator matters (is it the empty match)
+		res["re"] = M{"op": m["re"].(M)["op"]}
+	}
+	return res
+}
+
+// Bits is the number of truth values the specification will quantify over for the given
+// trees: two per substring/regexp pattern and one per other atom, times two documents when a
+// type:repo node occurs.
+func (s *Ser) Bits(trees ...M) int {
+	n := 2 * len(s.bases)
+	for _, a := range s.atoms {
+		if a["base"].(int) == 0 {
+			n++
+		}
+	}
+	var hasRepo func(M) bool
+	hasRepo = func(t M) bool {
+		if t["t"] == "type" && t["s"] == "repo" {
+			return true
+		}
+		for _, c := range t["sub"].([]M) {
+			if hasRepo(c) {
+				return true
+			}
+		}
+		return false
+	}
+	for _, t := range trees {
+		if t != nil && hasRepo(t) {
+			return 2 * n
+		}
+	}
+	return n
+}
+
+// MaxBits bounds the valuations per event (2^MaxBits).
+const MaxBits = 10
 
 // Event assembles one rewrite event. back: distance (in lines) to the shard event describing
 // the repository metadata the rewrite used, 0 when there is none.
